@@ -247,9 +247,43 @@ def run(rng: Rng, tier: str, index: int) -> RunResult:
                              {"rep": "generate-given-kid"})
         except Exception as e:
             viol("history:generate:failed", "%s: %s" % (type(e).__name__, e))
+    if kind == ("OKP", "X25519"):
+        for sig, what in noncanonical_x25519_problems(rng.sub("x25519-top-bit"), res):
+            res.violation(ID, sig, what, {"x25519_top_bit": rng.label})
     res.events = tr.n
     res.digest = tr.digest()
     return res
+
+
+def noncanonical_x25519_problems(rng: Rng, res=None) -> list:
+    """an X25519 public key as a peer may publish it: 32 octets whose top bit (which RFC 7748 tells receivers to ignore) is set.
+    JWK, DER and PEM forms of those octets name one key: one thumbprint, the RFC 7638 value over `x` as published"""
+    from joserfc.jwk import OKPKey
+    out = []
+    raw = bytearray(rng.bytes_(32))
+    raw[31] |= 0x80
+    raw = bytes(raw)
+    x = b64.enc(raw)
+    want = rk.thumbprint({"kty": "OKP", "crv": "X25519", "x": x})
+    der = bytes.fromhex("302a300506032b656e032100") + raw
+    import base64
+    pem = b"-----BEGIN PUBLIC KEY-----\n" + base64.b64encode(der) + b"\n-----END PUBLIC KEY-----\n"
+    got = {}
+    for name, mk in (("jwk", lambda: OKPKey.import_key({"kty": "OKP", "crv": "X25519", "x": x})), ("der", lambda: OKPKey.import_key(der)),
+                     ("pem", lambda: OKPKey.import_key(pem))):
+        try:
+            k = mk()
+            got[name] = (k.thumbprint(), k.as_dict(private=False).get("x"))
+        except Exception as e:
+            got[name] = ("refused", type(e).__name__)
+        if res is not None:
+            res.case("x25519-top-bit", name, raw.hex())
+    if res is not None:
+        res.fired("noncanonical-x25519-public-key")
+    accepted = {n: v for n, v in got.items() if v[0] != "refused"}
+    if len({v for v in accepted.values()}) > 1 or any(v[0] != want for v in accepted.values()):
+        out.append(("thumbprint:x25519-top-bit:representations-differ", "one X25519 public value (top bit set) gives %r; RFC 7638 over the published x: %s" % (got, want)))
+    return out
 
 
 def _provision(material, how, cls):
@@ -272,6 +306,8 @@ def _reload(blob, form, cls):
 
 def replay(repro: dict):
     """re-walk every representation of the recorded key"""
+    if "x25519_top_bit" in repro:
+        return noncanonical_x25519_problems(Rng(repro["x25519_top_bit"]).sub("x25519-top-bit"))
     material = rk.from_jwk(repro["key"], strict=False)
     out = []
     want = {h: rk.thumbprint(material, h) for h in ("sha256", "sha384", "sha512")}
